@@ -122,6 +122,7 @@ def make_exp(conds, rng):
     exp["report_path"] = report_path
     exp["extra_dirs_S"] = extra_dirs
     exp["sched"] = G.rand_sched(rng, 2) if rng is not None else {"seed": 0, "policy": "fifo", "line_p": 0.0}
+    exp["bad_file"] = bool(rng is not None and rng.random() < 0.3) or (rng is None and len(conds) == 0)
     return exp
 
 
@@ -177,7 +178,10 @@ class C20(Check):
         return make_exp(conds, rng)
 
     def execute(self, exp, ctx):
-        world = {"files": {k: enc(v.encode()) for k, v in FILES.items()}, "results": exp["results"],
+        files = dict(FILES)
+        if exp.get("bad_file"):
+            files["pkg/broken.py"] = "def broken(:\n    pass\n"  # a completed run may have failed files: still status 0
+        world = {"files": {k: enc(v.encode()) for k, v in files.items()}, "results": exp["results"],
                  "extra_dirs_S": exp.get("extra_dirs_S", [])}
         spec = {"name": "c20", "world": world, "argv": exp["argv"], "env": exp["env"], "faults": exp["faults"],
                 "report_path": exp["report_path"], "sched": exp["sched"], "hashseed": 0}
